@@ -31,7 +31,7 @@ def T(tier, quick, thorough):
 
 def run(tier, seed, t0):
     m = Merged(); wd = R.workdir("C03")
-    n1 = T(tier, 140, 3500); n8 = T(tier, 60, 1500)
+    n1 = T(tier, 140, 14000); n8 = T(tier, 60, 6000)
     # the six builds are independent: compile them side by side when the cache is cold (each has its own lock)
     with ThreadPoolExecutor(max_workers=3) as ex:
         list(ex.map(lambda cfg: R.builder.build("plain", cfg, "vh"), CONFIGS))
